@@ -2,11 +2,12 @@
    ExtrOcamlBasic only: bool, option, unit, prod, list, sumbool map to OCaml's own types;
    nat, positive, Z stay the extracted inductive types.  No Extract Constant of ours. *)
 From Coq Require Import Extraction ExtrOcamlBasic.
-From FV Require StoreP StoreB StoreQ SrcFragments TieB TBuffer Kernel World Factory.
+From FV Require StoreP StoreB StoreQ SrcFragments TieB TBuffer Kernel World Factory Conserve.
 Extraction Language OCaml.
 Separate Extraction StoreP.step StoreP.init StoreP.run_trace
   StoreB.step StoreB.init StoreB.run_trace
   TieB.lensB TieB.lensP SrcFragments TBuffer.tstep TBuffer.tinit
   StoreQ.qstep StoreQ.qinit StoreQ.qrun_trace
   Factory.mk_world Factory.run_until Factory.finalize_node Factory.finalize_edge Factory.fstep
-  World.node0 World.edge0 Kernel.res_init.
+  World.node0 World.edge0 Kernel.res_init
+  Conserve.mstep Conserve.accept Conserve.cnt Conserve.is_src Conserve.is_edge Conserve.is_node Conserve.is_pal Conserve.is_disc Conserve.is_recv.
